@@ -6,6 +6,7 @@ CONSTANTS
   MaxMods = 5
   WorkUnits = {1, 2, 9}
   MaxCounter = 2
+  AllocWhileCounter = FALSE
   Depth = 4
 CONSTRAINT GenBounded
 INVARIANT Emit
